@@ -42,7 +42,7 @@ ASSUMPTIONS = ['gcc -O0 x86-64 is "the platform C compiler"',
 BUDGET = {'quick': 64, 'thorough': 2400}
 BATCH = {'quick': 16, 'thorough': 20}
 MIN_PER_SHARD = 4
-TIME = {'quick': 15, 'thorough': 720}
+TIME = {'quick': 30, 'thorough': 720}
 
 
 def strategy(ctx):
